@@ -238,7 +238,7 @@ _RE_DEPTH = re.compile(r"The depth of the complete state graph search is (\d+)")
 
 def run_tlc(module, cfg, workdir=None, workers=16, dump=False, extra=(), env=None, timeout=3600,
             cont=True, simulate=None, depth=None, seed=None, deadlock=False, heap=None, keep=False,
-            coverage=False, extra_files=()):
+            coverage=False, extra_files=(), jvm=()):
     """Run TLC on spec/<module>.tla with spec/<cfg> (or an absolute cfg path).
 
     All spec/*.tla files are copied into a scratch directory so generated modules (constants, traces) can
@@ -257,7 +257,7 @@ def run_tlc(module, cfg, workdir=None, workers=16, dump=False, extra=(), env=Non
         for src in extra_files:
             shutil.copy(src, os.path.join(wd, os.path.basename(src)))
         cfgp = cfg if os.path.isabs(cfg) else os.path.join(wd, cfg)
-        cmd = ["java", "-XX:+UseParallelGC"]
+        cmd = ["java", "-XX:+UseParallelGC"] + list(jvm)
         if heap:
             cmd.append("-Xmx" + heap)
         cmd += ["-cp", TLA_JAR, "tlc2.TLC", "-workers", str(workers), "-metadir", os.path.join(wd, "meta"),
